@@ -21,7 +21,7 @@ PROP = dict(
                    env=dict(VERIF_STEPS=30, VERIF_C05_EVERY=3)),
                # contractcourt's own witness-type / input selection (notes/C05b.md)
                job("contractcourt", "^TestVerifC05Resolvers$", ["TestVerifC05Resolvers"], 25, shards=6, timeout=900,
-                   env=dict(VERIF_STEPS=30, VERIF_C05_EVERY=4), flaky_is_violation=False, race=True)],
+                   env=dict(VERIF_STEPS=30, VERIF_C05_EVERY=4), flaky_is_violation=False)],
         thorough=[job("lnwallet", "^TestVerifC05", ["TestVerifC05Closes"], 130, shards=16, timeout=3000,
                       env=dict(VERIF_STEPS=80, VERIF_C05_EVERY=2)),
                   job("contractcourt", "^TestVerifC05Resolvers$", ["TestVerifC05Resolvers"], 80, shards=16, timeout=3000,
